@@ -80,7 +80,11 @@ def dispatch_ok(value: T, pc, evs: T) -> bool:
                 continue
             decodable = render.assume_lookup(a, T("cmp", ("in", name, H))) is True
             if hkind == "get":
-                decodable = decodable or render.assume_lookup(a, T("cmp", ("is", h, const(None)))) is False
+                found = render.assume_lookup(a, T("cmp", ("is", h, const(None)))) is False
+                decodable = decodable or found
+                # handlers.get(trace_codes.get(id)) is not None: the registry's keys are strings (registry.load_all accepts
+                # nothing else), so the name is not None either, i.e. the id is in the table
+                in_table = in_table or (found and nkind == "get")
             return in_table and decodable
     return False
 
@@ -153,6 +157,21 @@ def _dispatch_by_value(interp, tp, feed_fn):
                 dedup.append(m)
         out[q] = tuple(dedup)
     return out
+
+
+def action_of(repo: Repo, interp, q: int) -> Optional[str]:
+    """Name of the TracesParser method that handles a record whose func_qualifier is q: read off the qualifiers_actions
+    table, or - when feed tests the qualifier itself - off feed's conditions evaluated for that value."""
+    tp = repo.cls("traces_parser", "TracesParser")
+    init = interp.run(tp.module, tp.methods["__init__"], self_cls=tp)
+    for e in init.effects:
+        if e.kind == "attr-store" and e.key == "qualifiers_actions" and (e.path or e.base) == SELF and e.value.op == "dict":
+            for k, v in e.value.a[0]:
+                if k == const(q) and v.op == "attr" and v.a[0] == SELF:
+                    return v.a[1]
+            return None
+    seq = _dispatch_by_value(interp, tp, tp.methods["feed"]).get(q, ())
+    return seq[0] if len(seq) == 1 else None
 
 
 def check(repo: Repo, run: Run) -> None:
@@ -479,7 +498,7 @@ def check(repo: Repo, run: Run) -> None:
     # ---- K9 parse_event_list
     fn, rec = method("parse_event_list")
     evs = param(fn.args.args[1].arg)
-    rets = [x for x in rec.returns if x.kind == "return"]
+    rets = normal.split_returns([x for x in rec.returns if x.kind == "return"])
     live = [x for x in rets if x.value != const(None)]
     ok = len(live) == 1 and dispatch_ok(live[0].value, live[0].pc, evs)
     run.ob("K9", MOD, "TracesParser.parse_event_list", "None unless id in table and name has a decoder", ok,
@@ -492,6 +511,8 @@ def check(repo: Repo, run: Run) -> None:
 def _pc_at_loop(rec, lr):
     """Path-condition entries that were already in force when the loop was entered (approximated by the
     entries shared by everything recorded inside the loop)."""
+    if lr.entry_pc is not None:
+        return tuple(lr.entry_pc)
     inside = [e.pc for e in rec.effects if lr.id in e.loops] + [p.pc for p in rec.pops if lr.id in p.loops]
     if not inside:
         return ()
